@@ -193,7 +193,7 @@ def parametrized(draw, prog: dict, rate: int = 30, n_assign=(1, 3), custom_var=T
     ops = ops[:pos] + decl + ops[pos:]
     assigns = [dict(pc.values)]
     for _ in range(draw(st.integers(*n_assign)) - 1):
-        kind = draw(st.sampled_from(["same", "scaled", "scaled"]))
+        kind = draw(st.sampled_from(["same", "scaled", "scaled", "nudged"]))
         a = {}
         for v in pc.vars:
             x = pc.values[v["name"]]
@@ -201,6 +201,11 @@ def parametrized(draw, prog: dict, rate: int = 30, n_assign=(1, 3), custom_var=T
                 a[v["name"]] = x
             elif v["dtype"] == "int":
                 a[v["name"]] = x  # integers (durations, indices) stay: other values rarely remain valid
+            elif kind == "nudged":
+                # a value next to the previous build's (finite-difference step): still another value
+                base = assigns[-1][v["name"]]
+                nd = lambda y: y * (1 - 3e-6) + 3e-9  # noqa: E731
+                a[v["name"]] = [nd(y) for y in base] if isinstance(base, list) else nd(base)
             else:
                 f = draw(st.sampled_from([1.0, 0.5, 0.9, 0.75]))
                 a[v["name"]] = [y * f for y in x] if isinstance(x, list) else x * f
